@@ -234,6 +234,7 @@ def features(case, ref):
     f = {"loads": sum(1 for a in accs if a[0] == "L"), "stores": sum(1 for a in accs if a[0] == "S")}
     f["st_text"] = any(m in ("sb", "sh", "sw") for m, _, _ in ins)
     f["ld_text"] = any(m in ("lb", "lh", "lw") for m, _, _ in ins)
+    f["cbr_text"] = sum(1 for m, _, _ in ins if m in BR2 or m in ("beqz", "bnez"))
     f["err_text"] = ("nowhere" in text) or any(m in ("div", "rem") for m, _, _ in ins)
     f["branches"] = any(m in BR2 or m in ("beqz", "bnez", "j", "jal", "jalr") for m, _, _ in ins)
     f["cond_branches"] = sum(1 for i in path if i < len(ins) and (ins[i][0] in BR2 or ins[i][0] in ("beqz", "bnez")))
